@@ -206,6 +206,9 @@ func (pr *printer) flow(f *FlowP) string {
 	var fb strings.Builder
 	fmt.Fprintf(&fb, "func %s(ctx context.Context, h rt.H, p []uint64) (res []uint64, err error) {\n", pr.p.Name)
 	fmt.Fprintf(&fb, "\tw := &%sw{h: h}\n\t_ = w\n", strings.ToLower(pr.pfx))
+	if f.ErrIdent {
+		fb.WriteString("\terr = rt.ErrMark\n")
+	}
 	pname := map[int]string{}
 	for k, t := range f.Params {
 		pname[t] = names[k%len(names)]
@@ -302,7 +305,12 @@ func (pr *printer) flow(f *FlowP) string {
 	// tasks keep their relative listing order (that is the abstract listing);
 	// everything else is shuffled among them
 	rng.Shuffle(len(items), func(i, j int) { items[i], items[j] = items[j], items[i] })
-	fb.WriteString("\terr = cff.Flow(" + pr.probe("ctx", "ctx"))
+	ctxExpr := "ctx"
+	if f.ErrIdent {
+		// a directive argument that mentions the user's variable named err
+		ctxExpr = "rt.Seen(h, 0, err == rt.ErrMark, ctx)"
+	}
+	fb.WriteString("\terr = cff.Flow(" + pr.probe("ctx", ctxExpr))
 	for _, it := range items {
 		fb.WriteString(",\n\t\t" + it.render())
 	}
@@ -334,6 +342,9 @@ func (pr *printer) par(p *ParP) string {
 		fmt.Fprintf(&fb, "func %s(ctx context.Context, h rt.H, p []uint64) (res []uint64, err error) {\n", pr.p.Name)
 	}
 	fmt.Fprintf(&fb, "\tw := &%sw{h: h}\n\t_ = w\n", lpfx)
+	if p.ErrIdent {
+		fb.WriteString("\terr = rt.ErrMark\n")
+	}
 	// collections
 	type collInfo struct{ varName, elemT, keyT, unE string }
 	ci := map[int]collInfo{}
@@ -525,7 +536,11 @@ func (pr *printer) par(p *ParP) string {
 		}})
 	}
 	rng.Shuffle(len(items), func(i, j int) { items[i], items[j] = items[j], items[i] })
-	fb.WriteString("\terr = cff.Parallel(" + pr.probe("ctx", "ctx"))
+	ctxExpr := "ctx"
+	if p.ErrIdent {
+		ctxExpr = "rt.Seen(h, 0, err == rt.ErrMark, ctx)"
+	}
+	fb.WriteString("\terr = cff.Parallel(" + pr.probe("ctx", ctxExpr))
 	for _, it := range items {
 		fb.WriteString(",\n\t\t" + it.render())
 	}
